@@ -37,5 +37,16 @@ CHECKS = {
   "note": "Trusted: clang 14 CFG; operator new/delete; the 'counted for-loops run at least once' assumption used for dominance "
           "through the create/delete loops (growth is only entered with block_num < expect_block_num).",
   "technique": "static analysis: exactly-once dataflow, who-may-call, edge-guard and constant-algebra rules over CFG facts of template instantiations"},
+ "C08": {
+  "text": "Decides on every FutureContext<T,M> instantiation: set_value constructs before the acq_rel seal and before the releasing READY "
+          "exchange, wakes unavoidably when the exchanged-out word shows waiters, runs callbacks only after the seal and never touches a "
+          "deleted node; on_finish disposes of each callback exactly once on every path (inline under an acquire-observed SEALED head | "
+          "winning push CAS | run+delete after losing to the seal) with release-publishing CAS and acquire failure order; waiters acquire on "
+          "the futex word, register before sleeping, wait on the observed word and report ready only under the READY bit; the latch fires on "
+          "equality of the fetch_sub result; the shared state is neither copyable nor movable. These are the racing cases (registration CAS "
+          "losing to the seal, waiter registering while the setter swaps in READY) that the sleep-ordered tests never produce. Timing of "
+          "wait_for and suspected S1 (waiter count never decremented) are not decided.",
+  "note": "Trusted: clang 14 CFG; kernel futex semantics; MoveOnlyFunction invocation is opaque.",
+  "technique": "static analysis: exactly-once path counting, dominance, edge-guard, memory-order and use-after-release rules over CFG facts"},
 }
 NOT_APPLICABLE = {("C%02d" % i): PENDING for i in range(1, 21) if ("C%02d" % i) not in CHECKS}
